@@ -1676,6 +1676,9 @@ func (c *DnsController) __updateDnsCacheDeadline(cacheKey string, host string, d
 
 	// Store atomically - concurrent writes don't block each other
 	newCache.RouteOwnerKey = cacheKey
+	// An insert counts as a use: without it a fresh (or just refreshed) entry has no
+	// access time and is the first victim of LRU eviction.
+	newCache.lastAccessNano.Store(now.UnixNano())
 	c.dnsCache.Store(cacheKey, newCache)
 	c.rememberDnsKnowledge(baseKey, originalDeadline)
 
